@@ -63,6 +63,8 @@ func vpMk_NLV(shape int, tag byte) NaturalLanguageValues {
 		return NaturalLanguageValues{{Ref: NilLangRef, Value: vpText2()}}
 	case 1:
 		return NaturalLanguageValues{{Ref: "en", Value: vpText2()}}
+	case 5: // allocated but empty
+		return NaturalLanguageValues{}
 	case 3: // a repeated tag (only where the codec promises to keep lists as they are: gob)
 		return NaturalLanguageValues{{Ref: "en", Value: vpText2()}, {Ref: "fr", Value: vpText2()}, {Ref: "en", Value: vpText2()}}
 	case 4: // two untagged texts
@@ -107,6 +109,12 @@ func vpMk_Item(shape int, tag byte) Item {
 		return ItemCollection{vpMkIRI(tag)}
 	case 8:
 		return ItemCollection{&Object{ID: vpMkIRI(tag), Type: NoteType, Summary: vpMk_NLV(0, tag)}}
+	case 11: // an empty list as a single item
+		return ItemCollection{}
+	case 12: // an object that says nothing
+		return &Object{}
+	case 13:
+		return IRI("")
 	case 10: // a link that has an id of its own besides its target
 		return &Link{ID: vpMkIRI(tag + 1), Type: MentionType, Href: vpMkIRI(tag)}
 	default:
@@ -125,6 +133,8 @@ func vpMk_Items(shape int, tag byte) ItemCollection {
 		return ItemCollection{vpMkIRI(tag), vpMkIRI(tag + 1)}
 	case 2:
 		return ItemCollection{vpMkIRI(tag), &Object{ID: vpMkIRI(tag + 1), Type: NoteType}}
+	case 6: // allocated but empty
+		return ItemCollection{}
 	case 4: // a repeated member (only offered where the codec promises to keep lists as they are: gob)
 		a := vpMkIRI(tag)
 		return ItemCollection{a, vpMkIRI(tag + 1), a}
